@@ -3,7 +3,7 @@
    with a JSON string for the same type.  Definitions only.
 
    Mirrors typify-impl/src/type_entry.rs:
-     has_impl                597-700   -> has_impl
+     has_impl                597-700   -> has_impl (internal);  lib.rs Type::has_impl 1141-1166 -> api_has_impl
      finalize (enum)         313-343   -> finalize_bespoke
      untagged_newtype_variants 1998-2020 -> untagged_newtype_variants
      output_enum             806-872   -> simple-enum templates (from_str/display, SEnum; Display
@@ -151,6 +151,15 @@ Fixpoint has_impl (T : space) (fuel : nat) (t : id) (tr : trait) : bool :=
     | Some DBoolean | Some (DInteger _) | Some (DFloat _) => true
     | _ => false
     end
+  end.
+
+(* the PUBLIC facade lib.rs `Type::has_impl` (fix 0e25061): false for (String-constrained
+   newtype, Display), otherwise the internal answer.  Emission, finalize and output_* use the
+   internal [has_impl] above; only API consumers see this one. *)
+Definition api_has_impl (T : space) (fuel : nat) (t : id) (tr : trait) : bool :=
+  match get_det T t, tr with
+  | Some (DNewtype _ _ _ (CString _ _ _)), TDisplay => false
+  | _, _ => has_impl T fuel t tr
   end.
 
 (* untagged_newtype_variants (1998-2020) and finalize (313-343) *)
@@ -503,13 +512,15 @@ Let ns := tab2 [] ns_tab.
 
 Definition FUEL : nat := 12.
 
-(* static facts of one type: wired, wf, finalize_agrees, has_impl F/D, emits fromstr/tryfrom/tryfrom_inner/display *)
+(* static facts of one type: wired, wf, finalize_agrees, has_impl F/D, emits fromstr/tryfrom/tryfrom_inner/display,
+   api_has_impl F/D *)
 Definition show_static (T : space) (t : id) : string :=
   "[" ++ show_bool (string_wired T FUEL t) ++ "," ++ show_bool (wf_conv T FUEL t) ++ ","
       ++ show_bool (finalize_agrees T FUEL t) ++ ","
       ++ show_bool (has_impl T FUEL t TFromStr) ++ "," ++ show_bool (has_impl T FUEL t TDisplay) ++ ","
       ++ show_bool (emits_fromstr T FUEL t) ++ "," ++ show_bool (emits_tryfrom T FUEL t) ++ ","
-      ++ show_bool (emits_tryfrom_inner T t) ++ "," ++ show_bool (emits_display T FUEL t) ++ "]".
+      ++ show_bool (emits_tryfrom_inner T t) ++ "," ++ show_bool (emits_display T FUEL t) ++ ","
+      ++ show_bool (api_has_impl T FUEL t TFromStr) ++ "," ++ show_bool (api_has_impl T FUEL t TDisplay) ++ "]".
 
 (* one probe: a JSON object *)
 Definition show_probe (T : space) (t : id) (s : ustring) : string :=
